@@ -470,6 +470,9 @@ pub fn raw_bad_connect_case(st: &mut Stats, seed: u64) {
     let order_zero_first = rng.chance(1, 2);
     let with_bind = rng.chance(1, 2);
     let bind_pos = rng.below(3) as usize;
+    // a stray Acknowledge on the id of the pending bind request (a late frame of an earlier stream with that id, or a confused
+    // peer): not an answer to the request, which stays pending
+    let stray_ack = rng.chance(1, 2);
     let end = sim::run(&sh, move |sh| async move {
         let (w0, w1, _net) = memws::pair(&sh, [0, 0], [None, None], true);
         let e0 = wl::endpoint(&sh, 0, &cfg, w0, seed);
@@ -498,6 +501,10 @@ pub fn raw_bad_connect_case(st: &mut Stats, seed: u64) {
                     bind_id = Some(id);
                 }
             }
+        }
+        if let (true, Some(b)) = (stray_ack, bind_id) {
+            raw.send(&RefFrame::Ack { id: b, n: 1 }).await;
+            raw.drain().await;
         }
         // the offending Connects
         let mut replies = Vec::new();
